@@ -371,6 +371,11 @@ pub fn run_locs(tier: &str, seed: u64, out: &mut Out) {
                      "<template name=\"p&amp;q\">t</template><template is=\"p&amp;q\"/><view wx:for=\"{{ l }}\" wx:key=\"k&lt;\">{{ item }}</view>"].iter().enumerate() {
         out.raw(&analyse_source(&format!("s{}", k), "clean", src).to_string());
     }
+    // empty bindings (a warning, not an error) between a binding and static text: the literal of the text that follows starts
+    // at the text (the pieces around an empty binding that has text on both sides are merged into one literal)
+    for (k, src) in ["<div>{{a}}{{ }}c</div>", "<v t=\"{{ a }}{{}}tail\">x{{ b }}{{ }}{{  }}z</v>", "<v>{{ a }}\n{{ }}tail text</v><w u=\"p{{ a }}{{ }}\"/>"].iter().enumerate() {
+        out.raw(&analyse_source(&format!("e{}", k), "clean", src).to_string());
+    }
     // fuzzed / malformed inputs: only location validity is required
     let bad = crate::total::inputs(if tier == "thorough" { "quick" } else { "quick" }, seed);
     let step = if tier == "thorough" { 1 } else { 4 };
